@@ -28,8 +28,9 @@ logging.disable(logging.CRITICAL)
 import whad.ble.stack.gatt as G
 
 
-class WouldDeadlock(Exception):
-    """threading.Lock.acquire() on a held lock from the only thread: the real server blocks for ever."""
+class WouldDeadlock(BaseException):
+    """threading.Lock.acquire() on a held lock from the only thread: the real server blocks for ever.
+    (BaseException: nothing in the stack may catch it -- a thread that blocks never raises.)"""
 
 
 DEAD = {"flag": False, "in_pdu": False}
@@ -285,7 +286,7 @@ class Rig:
                 probe = (self.out == ["010a000001"])
             else:
                 probe = True   # no connection: nothing to probe
-        except Exception:  # noqa
+        except (Exception, WouldDeadlock):  # noqa
             probe = False
         self.out = []
         return out, exc, probe
@@ -317,7 +318,7 @@ def main():
         for case in req["cases"]:
             try:
                 results.append(run_case(case))
-            except Exception as e:  # noqa
+            except (Exception, WouldDeadlock) as e:  # noqa
                 import traceback
                 results.append({"driver_error": type(e).__name__ + ": " + str(e), "tb": traceback.format_exc()[-1500:]})
             sys.stdout.seek(0); sys.stdout.truncate(0)
